@@ -61,4 +61,17 @@ def toposort (edges : List Edge) : Option (List Nat) :=
   (rootOf edges).map (fun r => (bfsOut edges r).map (fun e => edges.idxOf e))
 
 
+/-- Decidable recogniser of the theorems' hypothesis (`Arbo`): duplicate-free listing, a root with
+    no incoming edge, at most one incoming edge per node, and the breadth-first search from the
+    root emits as many edges as are listed (i.e. every edge is reachable).  Printed by the driver
+    so the harness can assert that every listing it calls a tree satisfies the hypothesis. -/
+def isArbo (edges : List Edge) : Bool :=
+  match rootOf edges with
+  | none => false
+  | some r =>
+    decide edges.Nodup
+    && edges.all (fun e => e.2 != r)
+    && edges.all (fun e => edges.all (fun e' => e.2 != e'.2 || e == e'))
+    && (bfsOut edges r).length == edges.length
+
 end SleapVerif.Toposort
